@@ -523,6 +523,36 @@ fn cases(tier: Tier) -> Vec<SVal> {
     for d in &depth2 {
         v.extend(containers(std::slice::from_ref(d)));
     }
+    // moderate size: long sequences, maps with many keys, deep nesting, every position failing
+    for n in [5usize, 12, 40] {
+        let items: Vec<SVal> = (0..n).map(|i| if i % 3 == 0 { SVal::I64(i as i64 - 3) } else if i % 3 == 1 { SVal::Str(format!("s{i}")) } else { SVal::Some(Box::new(SVal::F64(i as f64 / 4.0))) }).collect();
+        v.extend(containers(&items));
+        let entries: Vec<(SVal, SVal)> = (0..n).map(|i| (SVal::Str(format!("k{:02}", (i * 7) % n)), SVal::U16(i as u16))).collect();
+        v.push(SVal::Map(entries.clone()));
+        v.push(SVal::CollectMap(entries));
+        for bad in [0, n / 2, n - 1] {
+            let mut it = items.clone();
+            it[bad] = SVal::Fail;
+            v.extend(containers(&it));
+            let mut it2 = items.clone();
+            it2[bad] = SVal::U128(u128::MAX);
+            v.push(SVal::CollectSeq(it2));
+        }
+    }
+    {
+        let mut deep = SVal::I8(7);
+        for i in 0..12 {
+            deep = match i % 6 {
+                0 => SVal::Seq(vec![deep]),
+                1 => SVal::Struct(vec![("f0", deep)]),
+                2 => SVal::Some(Box::new(deep)),
+                3 => SVal::NewtypeVariant("NV", Box::new(deep)),
+                4 => SVal::Map(vec![(SVal::Str("k".into()), deep)]),
+                _ => SVal::TupleVariant("TV", vec![SVal::Unit, deep]),
+            };
+            v.push(deep.clone());
+        }
+    }
     if tier == Tier::Thorough {
         let pool20: Vec<SVal> = depth2.iter().step_by(depth2.len() / 20 + 1).cloned().collect();
         for a in &pool20 {
